@@ -143,6 +143,12 @@ def scenarios_c12(seed, tier):
     cis = [1, 2, 3, 7, 5000]
     flagsets = ["sats,runes,addresses", "runes"] if tier == "quick" else \
         ["sats,runes,addresses", "runes", "sats,runes,addresses,transactions", "addresses", "sats"]
+    # a cursed first inscription and, one block later, a clean reinscription of its sat: indexed by one update (one
+    # commit batch when the commit interval is large) or by two -- numbering must not depend on that
+    for fl in flagsets[:2]:
+        for ci in cis:
+            for split in ([], ["--split"]):
+                add((ci, 10, 2), _gen(WORK + "/g", "reinscribe", seed, 3, settings_args(ci, 10, 2, fl) + split + ["--tag", "ri%d" % seed]))
     for c in range(chains):
         for fl in flagsets:
             for ci in cis:
